@@ -1,7 +1,7 @@
 SPECIFICATION Spec
 CONSTANTS
-  Prefixes = {"", "(", "well ", "so I said ", "hmm... ", "please tell them "}
-  Suffixes = {"", "!", ".", "?", ")", " please", " thanks a lot", ", right"}
+  Prefixes = {"", "(", "well ", "so I said ", "hmm... ", "please tell them ", "  "}
+  Suffixes = {"", "!", ".", "?", ")", " please", " thanks a lot", ", right", " ", "   "}
   NeutralTokens = {"well", "please", "thanks", "so", "I", "said", "hmm", "yesterday", "nobody", "okay", "42", "!"}
   MaxNeutral = 3
   Separators = {" ", ", ", " and then "}
